@@ -67,6 +67,7 @@ Proof.
       rewrite tight_app, In_. reflexivity.
     + destruct (_ =? _); [|reflexivity]. rewrite tight_app, In_. reflexivity.
   - destruct (zmem _ _); [reflexivity|]. destruct (zmem _ _); [reflexivity|]. destruct (_ =? _); reflexivity.
+  - destruct (zmem _ _); [reflexivity|]. destruct (zmem _ _); [reflexivity|]. destruct (_ =? _); reflexivity.
   - destruct (zmem _ _); [destruct (Nat.eqb _ _)|]; reflexivity.
 Qed.
 
